@@ -155,7 +155,17 @@ def enum_values(names_all, rng):
           (" " + n0, "bad:unknown-enumerator"), (n0 + " ", "bad:unknown-enumerator"), ("NoSuchEnumerator", "bad:unknown-enumerator")]
     return v
 
-def dur_values(rng):
+def dur_values(rng, period=0):
+    out = []
+    for val, cls in dur_values_raw(rng):
+        if cls == "bad:out-of-range-rep":
+            d = duration_spec(val, period)       # whether the value fits depends on the field's resolution
+            if d is not None and abs(d[0]) < 2**62:
+                cls = "ok"
+        out.append((val, cls))
+    return out
+
+def dur_values_raw(rng):
     return [("0", "ok"), ("1", "ok"), ("1.5", "ok"), ("5s", "ok"), ("100ms", "ok"), ("1.5us", "ok"), ("1µs", "ok"), ("250ns", "ok"),
             ("2min", "ok"), ("1h", "ok"), ("1h30min", "ok"), ("1min30s", "ok"), ("1h 30min 15s", "ok"), ("0.5s", "ok"), ("1e-3s", "ok"),
             ("2.5ns", "ok"), ("3.5ns", "ok"), ("1.5ns", "ok"), ("0.5ns", "ok"), ("-1s", "ok"), ("90", "ok"), ("00", "ok"), ("0.0s", "ok"),
@@ -253,7 +263,7 @@ def values_for(ty, tabs, rng):
     if k == "real":
         return real_values(rng)
     if k == "dur":
-        return dur_values(rng)
+        return dur_values(rng, ty["period"])
     if k == "enum":
         names = [i["name"] for i in tabs.E[ty["name"]]["enumerators"] if i["alias_of"] is None]
         return enum_values(names, rng)
@@ -337,7 +347,8 @@ def gen_cases(ctx, tabs):
             elif variant == "double-dot":
                 k2, cls = key.replace(".", "..", 1) if "." in key else "." + key, "bad:unknown-key"
             elif variant == "unregistered":
-                k2, cls = rng.choice(["failure_policy", "stats", "direction"]), "bad:unknown-key"
+                top = [k for k, m in tabs.S[sname]["table"]]
+                k2, cls = rng.choice([k for k in ["failure_policy", "stats", "direction", "accelerator"] if k not in top]), "bad:unknown-key"
             else:
                 k2, cls = key, "bad:no-value"
             if variant == "no-equals":
@@ -375,7 +386,7 @@ def gen_cases(ctx, tabs):
         for val, cls in int_values(lo, hi, rng):
             cases.append(dict(op="leaf", lk=k, ty={"k": "int", "lo": lo, "hi": hi}, init=5, key="", val=val, cls=cls))
     for p in range(6):
-        for val, cls in dur_values(rng):
+        for val, cls in dur_values(rng, p):
             cases.append(dict(op="leaf", lk="dur%d" % p, ty={"k": "dur", "period": p}, init=5, key="", val=val, cls=cls))
         for _ in range(ctx.n(20, 300)):   # rounding ties and near ties in the field's resolution
             u = rng.choice(["ns", "us", "ms", "s", "min", "h"])
@@ -421,7 +432,7 @@ def to_coq(c, o, tabs):
         return "CLeaf %s %s %s %s %s %s %s" % (leafty_term(c["ty"], tabs), leaf_term(init), coqstr(c["key"]), coqstr(c["val"]),
                                               coq_convs(conv_table([c["val"]])), leaf_term(o["val"]), EXC.get(o["exc"], "XUndefined"))
     if c["op"] == "vec":
-        return "CVec %s %s %s %s %s %s" % (coqstr(c["key"]), coqstr(c["val"]), coq_convs(conv_table([c["val"]])), coqnat(o["size"]),
+        return "CVec %s %s %s %s %s %s" % (coqvec(c["v0"]), coqstr(c["key"]), coqstr(c["val"]), coq_convs(conv_table([c["val"]])),
                                            coqvec(o["v"]), EXC.get(o["exc"], "XUndefined"))
 
 # ----------------------------------------------------------------------------- oracle on implementation outputs
@@ -659,9 +670,18 @@ def table_oracle(ctx, tabs, enums_rt, kinds):
                 ctx.violation("C18:enum-name-bound-to-other-enumerator:%s.%s" % (en, n), "enum table of %s binds name %r to %r" % (en, n, m), {"enum": en})
         missing = [i["name"] for i in e["enumerators"] if i["alias_of"] is None and i["name"] not in names]
         lk = {"PANOCStopCrit": "stopcrit", "LBFGSStepSize": "lbfgsstep"}.get(en)
+        via = None          # a registered field of that enum type in an exported structure
+        for hn in tabs.order:
+            if tabs.S[hn].get("exported"):
+                for pth, ty in tabs.leaf_paths(hn):
+                    if ty["k"] == "enum" and ty["name"] == en and via is None:
+                        via = (hn, pth)
         for n in missing:
             if lk:
                 inp.append("leaf %s 0 x %s" % (lk, hx(n))); meta.append(("enum", en, n, n, lk))
+            elif via:
+                opt = "p.%s=%s" % (".".join(via[1]), n)
+                inp.append("set %s %s 0 %s" % (via[0], hx("p"), strs_in([opt]))); meta.append(("enum", en, n, opt, via[0]))
             else:
                 ctx.violation("C18:enum-table-missing:%s" % en, "enumerator %s of %s has no entry in the ENUM_TABLE" % (n, en), {"enum": en, "enumerator": n})
     if not inp:
@@ -741,9 +761,9 @@ def run(ctx):
                             "plus malformed keys, option lists with mixed prefixes, direct leaf instantiations (all integer widths, all duration periods), vectors. "
                             "A case is distinct by (leaf type, value class, exception class, changed-field class).")
     ctx.assumptions += ["std::from_chars decimal->binary64 conversion is an oracle of the model (section variable conv); checked against Python's correctly rounded float() on every case",
-                        "std::chrono::round / duration_cast modelled from the libstdc++ headers (ParamsDur.v), validated by correspondence at binary64; conversions that overflow int64 are undefined behaviour and outside the model (reported by the oracle as out-of-range-accepted)",
+                        "std::chrono::round / duration_cast modelled from the libstdc++ headers (ParamsDur.v), validated by correspondence at binary64 (range guard of parse_single_duration included)",
                         "header struct/enum definitions are read by a regex translator; cross-checked with the compiler (aggregate arity static_asserts, member access, leaf kinds, enumerator values)",
-                        "Eigen's resize leaves unspecified contents: the vec model only speaks about the size and the elements written so far"]
+                        "the vec setter is modelled as: fill a temporary, assign on success (whole vector compared)"]
     # ---- translator
     tr = load_translator()
     T = tr.run(core.REPO, core.VERIF, core.BUILD)
